@@ -15,7 +15,7 @@ import (
 type field struct {
 	off, n int
 	what   string // e.g. "K2.K0.code[3]"
-	kind   string // prefix | tag | len | bytes | op | line | int | float | count
+	kind   string // prefix | tag | len (string length) | count (number of elements) | bytes | op | line | int | float | int16
 }
 
 type dumpReader struct {
@@ -59,7 +59,7 @@ func (d *dumpReader) str(what string) {
 }
 
 func (d *dumpReader) count(what string) int {
-	n := d.i64(what, "len")
+	n := d.i64(what, "count")
 	if d.err == nil && (n < 0 || n > int64(len(d.b))) {
 		d.err = fmt.Errorf("bad count %d of %s", n, what)
 		return 0
@@ -94,9 +94,9 @@ func (d *dumpReader) konst(path string) {
 		for i := 0; i < n && d.err == nil; i++ {
 			d.konst(fmt.Sprintf("%s.K%d", path, i))
 		}
-		d.add(2, path+".UpvalueCount", "count")
-		d.add(2, path+".RegCount", "count")
-		d.add(2, path+".CellCount", "count")
+		d.add(2, path+".UpvalueCount", "int16")
+		d.add(2, path+".RegCount", "int16")
+		d.add(2, path+".CellCount", "int16")
 		n = d.count(path + ".nupnames")
 		for i := 0; i < n && d.err == nil; i++ {
 			d.str(fmt.Sprintf("%s.upname[%d]", path, i))
